@@ -23,7 +23,7 @@ COQ_TARGETS = ["theories/Props/C04.vo", "theories/Model/ScalarsEq.vo", "theories
 COQ_TARGETS = COQ_TARGETS + ["theories/Props/LeafBridge.vo", "theories/Model/LeafBridgeEq.vo"]      # = leaftie.COQ_TARGETS (leaftie imports this module)
 THEOREMS = ["C04_dur_wellformed", "C04_dur_reader", "C04_refuted_zero_malformed", "C04_not_full",
             "C04_refuted_weeks", "C04_refuted_negative", "C04_iso_cache_transparent", "C04_history_transparent",
-            "C04_history_ops", "C04_dur_roundtrip",
+            "C04_history_ops", "C04_history_scalar_ops", "C04_dur_roundtrip",
             "C04_text_int", "C04_text_float", "C04_text_decimal", "C04_text_fraction", "C04_text_uuid",
             "C04_text_path", "C04_text_enum", "C04_text_date", "C04_text_datetime", "C04_text_time",
             "C04_text_bool", "C04_subclass_instances",
@@ -32,7 +32,7 @@ THEOREMS = ["C04_dur_wellformed", "C04_dur_reader", "C04_refuted_zero_malformed"
             "C04_date_law_from_reader", "C04_datetime_law_from_reader", "C04_time_law_from_reader"]
 # non-vacuity: a concrete runtime satisfies RuntimeLaws, and text theorems instantiated on it (Examples of Props/C04.v)
 EXAMPLES = ["C04_runtime_laws_satisfiable", "C04_text_int_on_toy", "C04_dur_roundtrip_on_toy", "C04_text_date_on_toy",
-            "C04_text_enum_on_toy", "C04_history_example", "C04_subclass_on_toy"]
+            "C04_text_enum_on_toy", "C04_history_example", "C04_history_scalar_example", "C04_subclass_on_toy"]
 UTC = D.timezone.utc
 EPOCH = D.datetime(1970, 1, 1, tzinfo=UTC)
 TD = D.timedelta
@@ -1031,6 +1031,10 @@ def build_hist_value(spec):
         return spell_td(val, spec.get("spelling", "fields"))
     if kind == "datetime" and val[7] is None:
         return D.datetime(*val[:7], fold=val[8])          # naive: only ever a warm-up value
+    if kind == "bool":
+        return bool(val)
+    if kind == "str":
+        return str(val)
     return build_value(kind, val)[1]
 
 
@@ -1044,7 +1048,27 @@ def hist_op(name, x):
         return unmarshal(str, x)
     if name == "unmarshal_bytes":
         return unmarshal(bytes, x)
+    if name == "marshal:int":             # a bool / IntEnum member under the declared type int
+        return marshal(x, t=int)
+    if name == "canonical_text":          # the text -> value direction as a warm-up
+        return unmarshal(type(x), str(x.value) if isinstance(x, enum.Enum) else str(x))
     raise KeyError(name)
+
+
+def judged_ops(kind, v):
+    """the emitting operations judged on v"""
+    if kind in HIST_T:
+        return c04_families.OPS
+    if kind == "enum":
+        return ["marshal"]                # str(member) is not its wire form: unmarshal(str | bytes, member) is not judged
+    return c04_families.SCALAR_OPS + (["marshal:int"] if kind == "bool" else [])
+
+
+def warm_ops(spec):
+    if spec["kind"] in HIST_T:
+        return c04_families.OPS
+    mixin_int = spec["kind"] == "bool" or (spec["kind"] == "enum" and spec["value"][0] == "EIntEnum")
+    return c04_families.SCALAR_WARM_OPS + (["marshal:int"] if mixin_int else [])
 
 
 def emit_hval(x) -> str:
@@ -1072,7 +1096,7 @@ def run_history(case, w, v):
     """caches cleared once; warm_op(w); then every emitting operation on v.  [(op, result | exception)]"""
     impl.clear_caches()
     out = []
-    for op, x in [(case["warm_op"], w)] + [(o, v) for o in c04_families.OPS]:
+    for op, x in [(case["warm_op"], w)] + [(o, v) for o in judged_ops(case["kind"], v)]:
         try:
             out.append((op, hist_op(op, x)))
         except Exception as e:
@@ -1111,6 +1135,35 @@ def corr_history(run):
     dist["skipped(spelling cannot express the value, or not ==/hash-equal)"] = skipped
     bad, _ = eval_shards(run, "history", "pair_case_ok", coq)
     run.record_corr("iso-history(two-call histories over the equal-but-differently-represented families vs Model/IsoHistory.v)",
+                    len(cases), [cases[i] for i in bad], len(cases), dist)
+    return [cases[i]["case"] for i in bad]
+
+
+def corr_scalar_history(run):
+    """round 4: the two-call histories over the non-temporal scalar families vs Model/IsoHistory.v on pair_rt (str(w),
+    str(v) supplied as interpreter answers): the model keeps no state for these kinds, so v's observations are v's own
+    wire forms whatever equal value was handled before.  Judged enum members (marshal -> member.value) and the
+    declared-type operation marshal(., t=int) are the oracle's only."""
+    pairs = [(c["family"], c["warm"], {k: c[k] for k in ("kind", "value") if k in c}, c["warm_op"])
+             for c in corpus("scalar-history")]
+    pairs += [(f, w, j, c04_families.SCALAR_OPS[i % 3]) for i, (f, w, j) in enumerate(c04_families.scalar_histories(run.tier, run.seed))]
+    cases, coq, dist, skipped = [], [], {}, 0
+    for fam, warm, judged, warm_op in pairs:
+        case = c04_families.case_of(fam, warm, judged, warm_op)
+        wv = hist_values(case)
+        if wv is None or judged["kind"] == "enum" or warm_op not in HOP:
+            skipped += 1
+            continue
+        w, v = wv
+        obs = run_history(case, w, v)[1:1 + len(c04_families.SCALAR_OPS)]
+        outs = [emit_val(r) if not isinstance(r, Exception) else f"(VOther {cs('EXC ' + type(r).__name__)})" for _, r in obs]
+        cases.append({"layer": "scalar-history", "case": case, "observed": [repr(r)[:80] for _, r in obs]})
+        coq.append(f"({HOP[warm_op]}, {emit_val(w)}, {emit_val(v)}, {cs(str(w))}, {cs(str(v))}, {coq_list(outs)})")
+        key = fam.split("(")[0] if "seeded" in fam else fam
+        dist[key] = dist.get(key, 0) + 1
+    dist["skipped(judged enum member, or not ==/hash-equal)"] = skipped
+    bad, _ = eval_shards(run, "shistory", "spair_case_ok", coq)
+    run.record_corr("scalar-history(two-call histories over the equal numbers / paths / str families vs Model/IsoHistory.v)",
                     len(cases), [cases[i] for i in bad], len(cases), dist)
     return [cases[i]["case"] for i in bad]
 
@@ -1167,7 +1220,7 @@ def correspond(run: lib.Run):
     run._c04_bad["routines"] = corr_routines(run)
     corr_iso_writer(run)
     run._c04_bad["iso-reader"] = corr_iso_reader(run)
-    run._c04_bad["history"] = corr_history(run)
+    run._c04_bad["history"] = corr_history(run) + corr_scalar_history(run)
     sample_laws(run)
     # the scalar MARSHALLERS and the leaf laws of the composite theorems, derived from this scalar model (Props/LeafBridge.v)
     import leaftie      # imports this module's generators: not at module level
@@ -1410,6 +1463,55 @@ def check_numeric(case: dict):
     return fails
 
 
+def wire_same(got, want) -> bool:
+    """same class and same spelling (repr tells -0.0 from 0.0, Decimal('2.0') from Decimal('2.00'))"""
+    return type(got) is type(want) and repr(got) == repr(want)
+
+
+def check_scalar_history(case: dict):
+    """the cache-warming clause for the NON-temporal scalar kinds: after one call on a value w that is == v and
+    hash-equal but of another spelling / class, marshal(v) is still v's own wire form -- v itself for int / float / bool
+    (same class, same repr), Python's str(v) for Decimal / Fraction / path / str, the member's value for an enum --,
+    unmarshal(str | bytes, v) is str(v), and the marshalled text unmarshals back to a value equal to v of v's class.
+    marshal(True, t=int) must equal v and be an int (1 or True: the text does not say which; the code says 1)."""
+    from typelib import unmarshal
+    wv = hist_values(case)
+    if wv is None:
+        return []
+    w, v = wv
+    kind = case["kind"]
+    inp = {k: case[k] for k in ("family", "warm_op", "warm", "kind", "value") if k in case}
+    text = str(v)
+    wire = v if kind in ("int", "float", "bool", "str") else (v.value if kind == "enum" else text)
+    fails, emitted = [], None
+    for op, got in run_history(case, w, v)[1:]:
+        if op == "marshal":
+            ok, exp = wire_same(got, wire), wire
+            emitted = got if isinstance(got, str) else None
+        elif op == "marshal:int":
+            ok, exp = isinstance(got, int) and got == v, int(v)
+        elif op == "unmarshal_str":
+            ok, exp = wire_same(got, text), text
+        else:
+            ok, exp = wire_same(got, text.encode()), text.encode()
+        if not ok:
+            fails.append(_fail(f"history[{kind}]", "after a call on an equal-but-differently-represented value the emitted wire form "
+                               "is not the value's own canonical one", inp, got, exp, emitting_op=op, warmed_with=repr(w)[:120]))
+            break
+    if emitted is not None and kind != "str":
+        for c in ("CStr", "CBytes"):
+            try:
+                got = unmarshal(type(v), carry(c, emitted))
+            except Exception as e:
+                got = e
+            if isinstance(got, Exception) or type(got) is not type(v) or got != v:
+                fails.append(_fail(f"history[{kind}]", "the text marshalled after a call on an equal-but-differently-represented "
+                                   "value does not unmarshal back to the value", inp, got, v, carrier=c, text=emitted,
+                                   warmed_with=repr(w)[:120]))
+                break
+    return fails
+
+
 def check_history(case: dict):
     """the cache-warming clause as a two-call history: after ONE emitting call on a value w that is == v (and hash-equal)
     but rendered differently, every emitting operation on v still yields v's own canonical text -- Python's
@@ -1417,6 +1519,8 @@ def check_history(case: dict):
     microseconds).  Cases outside the clause (w != v) are not judged, except the 'date/' near family (a date and the
     datetime at its midnight), where the judged value is in U and no call on ANOTHER value may change its text."""
     from typelib import unmarshal
+    if case["kind"] not in HIST_T:
+        return check_scalar_history(case)
     wv = hist_values(case)
     if wv is None:
         return []
@@ -1498,9 +1602,14 @@ def search(run: lib.Run, broken):
     for fam, warm, judged in pairs:
         for op in c04_families.OPS:
             cases.append(c04_families.case_of(fam, warm, judged, op))
+    # round 4: the non-temporal scalar families (equal numbers across spellings and classes, paths, str / str-enum)
+    for fam, warm, judged in c04_families.scalar_histories(run.tier, run.seed):
+        for op in warm_ops(warm):
+            cases.append(c04_families.case_of(fam, warm, judged, op))
     fails, hist = [], {}
     for case in cases:
         k = case.get("op") or case["kind"]
+        k = "history(scalar)" if k == "history" and case["kind"] not in HIST_T else k
         hist[k] = hist.get(k, 0) + 1
         try:
             fs = run_case(case)
@@ -1526,7 +1635,9 @@ def search(run: lib.Run, broken):
                 "histories: for every pair (w, v) of the enumerated ==/hash-equal families (harness/c04_families.py: same instant "
                 "at every class of offset pair incl. 24 h apart, equal aware times, fold, timedelta spellings / pendulum.Duration, "
                 "date vs midnight datetime) and every warming operation: op(w), then isoformat/marshal/unmarshal(str|bytes) of v "
-                "== v.isoformat() and that text unmarshals back to v",
+                "== v.isoformat() and that text unmarshals back to v; the same for the non-temporal scalar families (equal numbers "
+                "across int / bool / float / Decimal spellings / Fraction / IntEnum, equal paths, str vs str-enum): marshal(v) is v's own "
+                "wire form (class and repr), unmarshal(str|bytes, v) is str(v), the marshalled text unmarshals back to v",
     }
     if out:
         run.samples.append({"oracle_failure": out[0]})
